@@ -166,7 +166,16 @@ func interpolateMap[K comparable, V any, M ~map[K]V](tf stringTransformer, m M) 
 // interpolateOrderedMap applies interpolateAny over any type of ordered.Map.
 // The map is altered in-place.
 func interpolateOrderedMap[K comparable, V any](tf stringTransformer, m *ordered.Map[K, V]) error {
-	return m.Range(func(k K, v V) error {
+	// Interpolate everything first and rewrite the map afterwards. Renaming a
+	// key in place while ranging would delete another, not yet visited, entry
+	// whose current key happens to equal the new name (Replace removes an
+	// existing "new" key), and that entry would be lost.
+	type entry struct {
+		oldKey, newKey K
+		value          V
+	}
+	entries := make([]entry, 0, m.Len())
+	if err := m.Range(func(k K, v V) error {
 		// We interpolate both keys and values.
 		intk, err := interpolateAny(tf, k)
 		if err != nil {
@@ -177,7 +186,18 @@ func interpolateOrderedMap[K comparable, V any](tf stringTransformer, m *ordered
 			return err
 		}
 
-		m.Replace(k, intk, intv)
+		entries = append(entries, entry{oldKey: k, newKey: intk, value: intv})
 		return nil
-	})
+	}); err != nil {
+		return err
+	}
+
+	// Rebuild in the same order.
+	for _, e := range entries {
+		m.Delete(e.oldKey)
+	}
+	for _, e := range entries {
+		m.Set(e.newKey, e.value)
+	}
+	return nil
 }
